@@ -198,6 +198,9 @@ func genGoInput(t *rapid.T) string {
 		}
 	}
 	s := sb.String()
+	if rapid.IntRange(0, 15).Draw(t, "bom") == 0 {
+		s = "\ufeff" + s
+	}
 	if rapid.IntRange(0, 24).Draw(t, "long") == 0 {
 		// longer than text/scanner's 1024-byte buffer, multi-byte runes straddling the boundary
 		rep := rapid.SampledFrom([]string{"é ", "日本 x\n", "ab\r\n", "`r\né` "}).Draw(t, "rep")
